@@ -1,6 +1,140 @@
-/-! line-protocol handlers (stub: filled in when the suite is built) -/
-namespace Apko.Driver.Retry
+import Apko.Model.Retry
+/-! line-protocol handlers for corr:retry (C20)
 
-def handle (_args : List String) : Option String := none
+`retry.run \t kind \t data(hex) \t script \t ops \t go-trace`
+  kind   = h | i | e
+  script = conns separated by `;`, a conn = `fail,status,page(hex),nobody,cut,ending,eager,chunks`
+           (status / cut: `-` or a number; ending: c | w | f; chunks: numbers separated by `.`)
+  ops    = `r<m>` | `c`, separated by `,`
+  trace  = `<open>;<events separated by blanks>`: open = E | P<code> | I<code>;
+           events = q- | q<p> | b<o|e|w|f> | r<hex>:<o|e|x> | c
+answers `impl-trace \t pass|fail:<why> \t class` — the Impl model's trace for the same case, and the
+Spec checker evaluated on the trace of the real code.
+-/
+namespace Apko.Driver.Retry
+open Apko Apko.Retry
+
+def parseKind : String → Option Kind
+  | "h" => some .honours | "i" => some .ignores | "e" => some .errorsOnResume | _ => none
+
+def optNat (s : String) : Option (Option Nat) :=
+  if s = "-" then some none else s.toNat?.map some
+
+def parseBool : String → Option Bool
+  | "0" => some false | "1" => some true | _ => none
+
+def parseEnd : String → Option End
+  | "c" => some .clean | "w" => some .wrapped | "f" => some .fault | _ => none
+
+def parseChunks (s : String) : Option (List Nat) :=
+  if s.isEmpty then some [] else (s.splitOn ".").mapM (·.toNat?)
+
+def parseConn (s : String) : Option Conn :=
+  match s.splitOn "," with
+  | [f, st, pg, nb, cut, en, eg, ch] => do
+    let f ← parseBool f
+    let st ← optNat st
+    let nb ← parseBool nb
+    let cut ← optNat cut
+    let en ← parseEnd en
+    let eg ← parseBool eg
+    let ch ← parseChunks ch
+    pure ⟨f, st, unhexS pg, nb, cut, en, ch, eg⟩
+  | _ => none
+
+def parseScript (s : String) : Option (List Conn) :=
+  if s.isEmpty then some [] else (s.splitOn ";").mapM parseConn
+
+def parseOp (s : String) : Option Op :=
+  if s = "c" then some .close
+  else if s.startsWith "r" then (s.drop 1).toNat?.map .read
+  else none
+
+def parseOps (s : String) : Option (List Op) :=
+  if s.isEmpty then some [] else (s.splitOn ",").mapM parseOp
+
+def showRes : Res → String
+  | .ok => "o" | .eof => "e" | .weof => "w" | .fault => "f"
+
+/-- what the consumer can tell apart: nil, io.EOF, anything else -/
+def showResult : Res → String
+  | .ok => "o" | .eof => "e" | _ => "x"
+
+def showEvent : Event → String
+  | .req none => "q-"
+  | .req (some p) => s!"q{p}"
+  | .body res => "b" ++ showRes res
+  | .result out res => "r" ++ hexS out ++ ":" ++ showResult res
+  | .close => "c"
+
+def showOutcome : Outcome → String
+  | .error => "E" | .passthrough c => s!"P{c}" | .installed c => s!"I{c}"
+
+def showTrace (o : Outcome) (log : List Event) : String :=
+  showOutcome o ++ ";" ++ " ".intercalate (log.map showEvent)
+
+def parseRes : String → Option Res
+  | "o" => some .ok | "e" => some .eof | "w" => some .weof | "f" => some .fault | "x" => some .fault | _ => none
+
+def parseEvent (s : String) : Option Event :=
+  if s = "c" then some .close
+  else if s = "q-" then some (.req none)
+  else if s.startsWith "q" then (s.drop 1).toNat?.map (fun p => .req (some p))
+  else if s.startsWith "b" then (parseRes (s.drop 1).toString).map .body
+  else if s.startsWith "r" then
+    match (s.drop 1).toString.splitOn ":" with
+    | [h, c] => (parseRes c).map (.result (unhexS h))
+    | _ => none
+  else none
+
+def parseOutcome (s : String) : Option Outcome :=
+  if s = "E" then some .error
+  else if s.startsWith "P" then (s.drop 1).toNat?.map .passthrough
+  else if s.startsWith "I" then (s.drop 1).toNat?.map .installed
+  else none
+
+def parseTrace (s : String) : Option (Outcome × List Event) :=
+  match s.splitOn ";" with
+  | [o, evs] => do
+    let o ← parseOutcome o
+    let evs ← if evs.isEmpty then some [] else (evs.splitOn " ").mapM parseEvent
+    pure (o, evs)
+  | _ => none
+
+/-- first event at which the checker rejects, for the failure message -/
+def firstReject (data : Text) : Spec.St → List Event → Nat → Option (Nat × Event)
+  | _, [], _ => none
+  | s, e :: es, i =>
+    match Spec.stepEvent data true s e with
+    | none => some (i, e)
+    | some s' => firstReject data s' es (i + 1)
+
+def verdict (data : Text) (goTrace : String) : String :=
+  match parseTrace goTrace with
+  | none => "fail:unparsable-trace"
+  | some (o, evs) =>
+    if !Spec.acceptsOpen data o then "fail:200-without-body-for-nonempty-file"
+    else match firstReject data Spec.init evs 0 with
+      | none => "pass"
+      | some (i, e) => s!"fail:event-{i}-{showEvent e}"
+
+def handle (args : List String) : Option String :=
+  match args with
+  | ["retry.run", k, d, sc, ops, goTrace] =>
+    let data := unhexS d
+    let impl := match parseKind k, parseScript sc, parseOps ops with
+      | some k, some sc, some ops =>
+        let (o, r) := run Cfg.generated data k sc ops
+        showTrace o r.log
+      | _, _, _ => "bad-case"
+    let v := verdict data goTrace
+    some <| impl ++ "\t" ++ v ++ "\t" ++ (if v = "pass" then "-" else "unlisted")
+  -- self-test of the oracle: the Spec checker's verdict on a hand-written (possibly tampered) trace
+  | ["retry.selftest", d, goTrace] =>
+    let v := verdict (unhexS d) goTrace
+    some <| v ++ "\t" ++ v ++ "\t-"
+  -- end-to-end steps through FetchPackage / fetchRepositoryIndex: the verdict is computed by the harness
+  | ["retry.e2e", _] => some "-\t-\tunlisted"
+  | _ => none
 
 end Apko.Driver.Retry
